@@ -2,7 +2,7 @@
 from vlib.core import Query
 
 INFO = {
-    "claim": "Slice: the keyword look-up (keyInit/keyTag/keyLongest) and the interactive line-continuation test (scanIsContinued) perform no "
+    "claim": "Slice: the keyword look-up (keyInit/keyTag/keyLongest), the interactive line-continuation test (scanIsContinued) and the separator clean-up of the linearizer (linXSep) perform no "
              "out-of-bounds access and reach no internal-error report on ANY NUL-terminated byte string within the length bound (all byte "
              "values incl. >= 0x80), and keyTag/keyLongest agree with the keyword table. The whole-compiler clauses of C07 (termination, exit "
              "status vs diagnostics, parser and later phases) are not decided.",
@@ -30,4 +30,8 @@ def queries(ctx, extra):
         qs.append(Query(name="iscont_%d" % n, harness="c07_lex.c", entry="h_iscont", srcs=["scan.c", "strops.c"], defs=["-DSLEN=%d" % n],
                         stubs=["stubs.c", "stubs_print.c"], unwind=n + 3, timeout=900, mem_gb=10, tiers=tiers, group="line continuation",
                         bound="two consecutive lines of <= %d bytes each" % n))
+    for n, tiers in ((3, ("quick", "thorough")), (5, ("thorough",))):
+        qs.append(Query(name="linxsep_%d" % n, harness="c07_lin.c", entry="h_linxsep", defs=["-DNTOK=%d" % n], stubs=["stubs.c", "stubs_print.c"],
+                        unwind=n + 3, timeout=600, mem_gb=8, tiers=tiers, group="linearizer", flags=["--max-field-sensitivity-array-size", "200"],
+                        bound="token lists of 0..%d tokens, every token tag" % n))
     return qs
